@@ -59,15 +59,17 @@ P("C05", [("V10", None), ("V3", None), ("V18", None), ("V23", None), ("K11", r"^
   "Not reached: push_auto_trait_impls / constituent types (iterator+closure code), delayed subgoals in the SLG engine, cache rollback. Assumed: finite goals, trait flags abstract.",
   "contract-based deductive verification: Verus on mechanically extracted function text")
 
-P("C03", [("V5", None), ("V20", None)],
+P("C03", [("V5", None), ("V20", None), ("V25", None)],
   "proof",
   "Partial (function-level links): Verus proves on the verbatim text of the SLG answer stream that every yielded answer is the table's answer at the stream's current index with "
   "binders, substitution, constraints and ambiguity flag unchanged and no delayed subgoals (answers awaiting refinement are never yielded), that next_answer strictly advances the "
   "index (an index is handed out at most once) and that QuantumExceeded is only reported when the caller's callback returned false. On the verbatim text of "
   "merge_answer_into_strand it proves that consuming answer k of a positive subgoal queues, on the table being evaluated and right behind what was queued, a copy of the strand asking for answer k+1 "
   "(unless the answer is the trivial substitution or was set aside as ambiguous), that nothing else is queued, that no stored answer changes, and that merging an ambiguous answer marks the strand ambiguous. "
+  "On the real Table struct (real Vec / VecDeque, hash map abstract) it proves that push_answer publishes an answer exactly when no answer with the same canonical substitution was published before, "
+  "returns its index, keeps 'published answers pairwise differ in their substitution' invariant, and that answer(i) / next_answer_index / enqueue_strand are what the other units assume. "
   "Unbounded, partial correctness.",
-  "Not reached: Table::push_answer's duplicate detection (hash-map Entry API), soundness/completeness of the rest of the state machine behind ensure_root_answer (havoc here), "
+  "Not reached: soundness/completeness of the rest of the state machine behind ensure_root_answer (havoc here), that answers reaching push_answer are canonicalized (so that equal answers have equal substitutions), "
   "the solve_multiple callback loop (&mut dyn FnMut is outside Verus), termination.",
   "contract-based deductive verification: Verus on mechanically extracted function text, callee havoc contracts, in-place loop invariant")
 
